@@ -3,7 +3,8 @@
 was written against, run all mosslint rules on base and base+patch, record the new violations in
 meta.json ("detected_by") and print a markdown table."""
 import json, os, subprocess, glob, sys
-ML='/verif/bin/mosslint'
+import os as _o
+ML=_o.environ.get('ML','/verif/bin/mosslint')
 def viol(tree):
     out=subprocess.run([ML,'-dump','-json','-repo',tree],capture_output=True,text=True).stdout
     keys=set()
